@@ -550,6 +550,25 @@ def check_c14() -> int:
         for raw in (b"[]", b"1", b"null", b"true", b"\"s\"", b"{}", b"1e400", b"{\"1\": 1e400}", b"NaN", b"{\"1\": NaN}", b"[" * 40 + b"]" * 40,
                     b"{\"a\": {\"node_id\": 1}}", b"{\"1\": {\"node_id\": 1, \"node_id\": 2}}"):
             items.append(("rawjson", raw, null))
+        # well-formed JSON with deeply nested values in every position, and texts holding half of a surrogate pair
+        node = {"node_id": 1, "node_type": 17, "protocol_version": "2.0", "children": {}, "sketch_name": "s", "sketch_version": "",
+                "battery_level": 5, "heartbeat": 0, "sleeping": False}
+        child = {"child_id": 0, "child_type": 6, "description": "", "values": {}}
+        for depth in (200, 500, 700):
+            deep = "[" * depth + "]" * depth
+            deepobj = '{"a":' * depth + "1" + "}" * depth
+            for nested in (deep, deepobj):
+                marker = '"@@"'
+                docs = [{"1": "@@"}, {"1": dict(node, children="@@")}, {"1": dict(node, extra="@@")}, {"1": dict(node, sketch_name="@@")},
+                        {"1": dict(node, children={"0": dict(child, values={"0": "@@"})})}, {"1": dict(node, children={"0": dict(child, extra="@@")})},
+                        {"1": dict(node, children={"0": "@@"})}]
+                for doc in docs:
+                    items.append(("rawjson", json.dumps(doc).replace(marker, nested).encode(), null))
+        for esc in ("\\ud83d", "\\udc00x", "a\\ud83d\\ud83d"):
+            for doc in ({"1": dict(node, sketch_name="@@")}, {"1": dict(node, sketch_version="@@")},
+                        {"1": dict(node, children={"0": dict(child, description="@@")})},
+                        {"1": dict(node, children={"0": dict(child, values={"0": "@@"})})}, {"1": dict(node, protocol_version="@@")}):
+                items.append(("rawjson", json.dumps(doc).replace("@@", esc).encode(), null))
         for _ in range(6):
             items.append(("empty", b"", null))
             items.append(("missing", None, null))
